@@ -534,6 +534,12 @@ def reset_table(ctx, cname):
         else:
             ctx.ob("TAB-reset", site, "detect_batch=%d: the reference is kept whole and nothing is replayed [%s]" % (db, cname), not rec and not st, "")
         fin = tr.final.attrs if tr.final is not None else {}
+        # the epoch marker: lambda = number of batches seen before the epoch's first (possibly replayed) batch is counted
+        lam = [e for e in tr.stores("_lambda") if e.func.name == "reset" and len(e.stack) <= 2]
+        okl = len(lam) == 1 and lam[0].value == A("_total_batches") and (not rec or lam[0].seq < rec[0].seq)
+        ctx.ob("TAB-reset", site, "the epoch marker lambda is set to the batches seen so far, before anything of the new epoch is counted (detect_batch=%d) [%s]" % (db, cname), okl,
+               "lambda := %s%s" % (q.short(lam[0].value, 60) if lam else "not stored", "" if not rec or not lam or lam[0].seq < rec[0].seq else " - but only after the replayed batch was counted"),
+               lam[0] if lam else None)
         if db != 1:
             ctx.ob("TAB-reset", site, "the epoch's epsilon statistics restart (detect_batch=%d) [%s]" % (db, cname),
                    fin.get("epsilon") == atom(("list", ())) and fin.get("total_epsilon") == const(0), "")
